@@ -110,7 +110,7 @@ pub fn run(v: &Value, rep: &mut Report) -> Result<(), String> {
         'outer: loop {
             if t0.elapsed() > budget { break; }
             if let Some(ops) = materialize(&idx, &alpha) {
-                let hist = json!({"kind":"level_history","price":100,"ops":ops});
+                let hist = json!({"kind":"level_history","price":100,"ops":ops,"legs": prop == "C10"});
                 *current.lock().unwrap() = Some(hist.clone());
                 let mut r = Report::default();
                 if crate::level_history::run(&hist, &mut r).is_ok() {
